@@ -82,14 +82,14 @@ Proof.
   - rewrite W2. reflexivity.
 Qed.
 
-Lemma abs_isize_le_usize i : in_isize i = true -> (Z.abs i <=? usize_max) = true.
+Lemma abs_isize_le_usize i : in_isize i = true -> Z.min (Z.abs i) usize_max = Z.abs i.
 Proof.
   unfold in_isize, isize_min, isize_max, usize_max.
   assert (T63 : two63 = 9223372036854775808) by reflexivity.
   assert (T64 : two64 = 18446744073709551616) by reflexivity.
   generalize dependent two63. generalize dependent two64. intros t64 T64 t63 T63 W.
   apply andb_prop in W. destruct W as [A B]. apply Z.leb_le in A. apply Z.leb_le in B.
-  apply Z.leb_le. lia.
+  apply Z.min_l. lia.
 Qed.
 
 Lemma as_pos_usize_repr x y a : int_val x = Some a -> int_val y = Some a -> num_is_wf x = true -> num_is_wf y = true ->
